@@ -503,8 +503,8 @@ theorem KeysNodup.unique {o : List (Nat × Nat)} (h : KeysNodup o) {k id id' : N
     have hp := List.pairwise_cons.mp h
     rcases List.mem_cons.mp h1 with e1 | e1 <;> rcases List.mem_cons.mp h2 with e2 | e2
     · rw [← e1] at e2; cases e2; rfl
-    · subst e1; exact absurd rfl (hp.1 _ e2)
-    · subst e2; exact absurd rfl (hp.1 _ e1).symm
+    · subst e1; exact absurd rfl (hp.1 (k, id') e2)
+    · subst e2; exact absurd rfl (hp.1 (k, id) e1)
     · exact ih hp.2 e1 e2
 
 theorem find_of_mem {o : List (Nat × Nat)} (h : KeysNodup o) {k id : Nat} (hm : (k, id) ∈ o) :
@@ -714,14 +714,15 @@ theorem LInv.add {s : LRU} (inv : LInv s) (k v : Nat) : LInv (s.add k v).1 := by
       refine ⟨hev, ?_⟩
       intro hc
       have hlen := congrArg List.length hys
-      simp only [List.length_cons, List.length_append, List.length_singleton] at hlen
+      simp only [List.length_cons, List.length_append] at hlen
       have := inv.capOk hc
       simp only; omega
     · rename_i hcap
       refine ⟨hpush, ?_⟩
       intro hc
-      simp only [List.length_cons] at hcap ⊢
-      simp only [List.length_cons]
+      have hc' : s.cap ≠ 0 := hc
+      show (s.order.length + 1) ≤ s.cap
+      simp only [List.length_cons] at hcap
       omega
 
 theorem LInv.get {s : LRU} (inv : LInv s) (k : Nat) : LInv (s.get k).1 := by
